@@ -112,6 +112,10 @@ func canonOf(t *modelv1.TagValue) string {
 
 func main() {
 	r := ev.New("C12", "exploration")
+	if rp := ev.Arg("--replay"); rp != "" {
+		// the whole enumeration takes under a second: replay = run it again and look for the artefact's key
+		r.ReplayWholeRun(rp)
+	}
 	thorough := ev.Thorough()
 	evals, nontrivial := 0, 0
 
@@ -349,6 +353,13 @@ func main() {
 	}
 	rec(0)
 	nontrivial += len(seen)
+	// ---- users of the encodings that build distributed sort keys
+	{
+		floats := append(append([]float64{}, float64Alphabet()...), nanAlphabet()...)
+		e, n := checkSortKeyUsers(r, int64Alphabet(), floats)
+		evals += e
+		nontrivial += n
+	}
 	r.Set("evaluations", evals)
 	r.Set("distinct_nontrivial", nontrivial)
 	r.Set("series_tuples", tuples)
